@@ -94,10 +94,14 @@ Definition cident (ce : cenv) (x : string) (nk na : nat) : frag :=
   let after_scopes :=
     if is_last_result x then {| f_consts := []; f_code := [IGetLastResult]; f_na := na |}
     else match fn_lookup x (c_functions ce) with
-         | Some is_foreign =>
-             let r := if is_foreign then FForeign x
-                      else FNormal x (match rposition x (c_chunks ce) with Some i => i | None => 0 end) in
-             {| f_consts := [CFunRef r]; f_code := [ILoadConstant nk]; f_na := na |}
+         | Some true =>
+             {| f_consts := [CFunRef (FForeign x)]; f_code := [ILoadConstant nk]; f_na := na |}
+         | Some false =>
+             (* FunctionReference::Normal(name, get_function_idx(name)) *)
+             match rposition x (c_chunks ce) with
+             | Some i => {| f_consts := [CFunRef (FNormal x i)]; f_code := [ILoadConstant nk]; f_na := na |}
+             | None => {| f_consts := []; f_code := [ICompilePanic]; f_na := na |}
+             end
          | None => {| f_consts := []; f_code := [ICompilePanic]; f_na := na |}
          end in
   match c_locals ce with
